@@ -16,20 +16,36 @@ def pHdr (t : String) : Option HdrPerm :=
       pure ⟨← decB n, ← decBool pr, ← decB ex, ← decB pf, ← decB sf, ← decB co, ← decB re, ← decBool inv, ← decBool ic⟩
   | _ => none
 
+/-- `seg>seg<value` -/
+def pFact (t : String) : Option (List Name × Name) :=
+  match t.splitOn "<" with
+  | [p, v] => do pure (← (p.splitOn ">").mapM decB, ← decB v)
+  | _ => none
+
+/-- `name~claim^claim` (`-` = no claims) -/
+def pProv (t : String) : Option JwtProv :=
+  match t.splitOn "~" with
+  | [n, cs] => do
+      let claims ← (lst "^" cs).mapM pFact
+      pure ⟨← decB n, claims.map fun c => ⟨c.1, c.2⟩⟩
+  | _ => none
+
 def pPerm (t : String) : Option Perm :=
   match t.splitOn "!" with
-  | [a, h, pe, pp, pr, hs, ms] => do
+  | [a, h, pe, pp, pr, hs, ms, jw] => do
       let allow ← decBool a
       let has ← decBool h
+      let jwt ← (lst "+" jw).mapM pProv
       if has then
-        pure ⟨allow, some ⟨← decB pe, ← decB pp, ← decB pr, ← (lst "+" hs).mapM pHdr, ← (lst "+" ms).mapM decB⟩⟩
-      else pure ⟨allow, none⟩
+        pure ⟨allow, some ⟨← decB pe, ← decB pp, ← decB pr, ← (lst "+" hs).mapM pHdr, ← (lst "+" ms).mapM decB⟩, jwt⟩
+      else pure ⟨allow, none, jwt⟩
   | _ => none
 
 def pIxn (t : String) : Option Ixn :=
   match t.splitOn ";" with
-  | [peer, name, dst, prec, allow, perms] => do
-      pure ⟨← decB peer, ← decB name, ← decB dst, ← prec.toNat?, ← decBool allow, ← (lst "|" perms).mapM pPerm⟩
+  | [peer, name, dst, prec, allow, perms, jw] => do
+      pure ⟨← decB peer, ← decB name, ← decB dst, ← prec.toNat?, ← decBool allow, ← (lst "|" perms).mapM pPerm,
+        ← (lst "+" jw).mapM pProv⟩
   | _ => none
 
 def pBundle (t : String) : Option Bundle :=
@@ -58,8 +74,8 @@ def pCaller (t : String) : Option Caller :=
   match t.splitOn ";" with
   | [d, x] => do
       let direct ← pIdent d
-      if x == "-" then pure ⟨direct, none⟩
-      else pure ⟨direct, some (← (x.splitOn "+").mapM pXElem)⟩
+      if x == "-" then pure ⟨direct, none, []⟩
+      else pure ⟨direct, some (← (x.splitOn "+").mapM pXElem), []⟩
   | _ => none
 
 def pPair (t : String) : Option (Name × Name) :=
@@ -69,7 +85,8 @@ def pPair (t : String) : Option (Name × Name) :=
 
 def pReq (t : String) : Option Req :=
   match t.splitOn ";" with
-  | [p, hs, rx] => do pure ⟨← decB p, ← (lst "+" hs).mapM pPair, ← (lst "+" rx).mapM pPair⟩
+  | [p, hs, rx, md] => do
+      pure ⟨← decB p, ← (lst "+" hs).mapM pPair, ← (lst "+" rx).mapM pPair, ← (lst "+" md).mapM pFact⟩
   | _ => none
 
 /-! ### canonical printing -/
@@ -90,6 +107,7 @@ def sPm : Pm → String
   | .any => "any"
   | .urlPath m => s!"path({sStrM m})"
   | .header h => sHdrM h
+  | .mdata p v => "meta(" ++ ">".intercalate (p.map encB) ++ ";" ++ encB v ++ ")"
   | .andRules l => "and(" ++ sPms l ++ ")"
   | .orRules l => "or(" ++ sPms l ++ ")"
   | .notRule p => "not(" ++ sPm p ++ ")"
@@ -104,6 +122,7 @@ def sPr : Pr → String
   | .id s => s!"auth({encB (idPattern s)})"
   | .gw td => s!"auth({encB (gwPattern td)})"
   | .xfcc s => s!"xfcc({encB (xfccPattern s)})"
+  | .mdata p v => "meta(" ++ ">".intercalate (p.map encB) ++ ";" ++ encB v ++ ")"
   | .andIds l => "and(" ++ sPrs l ++ ")"
   | .orIds l => "or(" ++ sPrs l ++ ")"
   | .notId p => "not(" ++ sPr p ++ ")"
@@ -124,27 +143,31 @@ def bits (l : List Bool) : String := String.ofList (l.map fun b => if b then '1'
 
 def sSrc (s : Src) : String := s!"{encB s.name};{encB s.peer};{encB s.ap};{encB s.td}"
 
-def emptyReq : Req := ⟨[], [], []⟩
+def emptyReq : Req := ⟨[], [], [], []⟩
 
 /-! ### the engine -/
 
 def step (_ : Unit) (toks : List String) : Unit × String :=
   match toks with
-  | ["rbac", d, h, td, bs, is, cs, rs] =>
-    match decBool d, decBool h, decB td, (lst "," bs).mapM pBundle, (lst "," is).mapM pIxn,
+  | ["rbac", d, h, td, bs, ps, is, cs, rs] =>
+    match decBool d, decBool h, decB td, (lst "," bs).mapM pBundle, (lst "," ps).mapM pPair, (lst "," is).mapM pIxn,
           (lst "," cs).mapM pCaller, (lst "," rs).mapM pReq with
-    | some dflt, some http, some ltd, some bundles, some ixns, some callers, some reqs =>
-      let env : Env := ⟨ltd, bundles⟩
+    | some dflt, some http, some ltd, some bundles, some provs, some ixns, some callers, some reqs =>
+      let env : Env := ⟨ltd, bundles, provs⟩
       let reqs := if http then reqs else [emptyReq]
+      -- the validated JWT payloads travel with the request; a caller is judged together with them
+      let withMeta (c : Caller) (r : Req) : Caller := { c with jmeta := r.jmeta }
       let spec := ".".intercalate (callers.map fun c =>
-        bits (reqs.map fun r => specAllow callerSem env ixns dflt http c r))
+        bits (reqs.map fun r => specAllow callerSem env ixns dflt http (withMeta c r) r))
       match translate env ixns dflt http with
-      | none => ((), s!"rbac=panic eval=- spec={spec}")
+      | none =>
+        let why := if jwtMissing env http (removeSameSource (sortIxns ixns)) then "error" else "panic"
+        ((), s!"rbac={why} eval=- spec={spec}")
       | some rb =>
         let ev := ".".intercalate (callers.map fun c =>
-          bits (reqs.map fun r => evalRbac wireSem rb (wire c) r))
+          bits (reqs.map fun r => evalRbac wireSem rb (wire (withMeta c r)) r))
         ((), s!"rbac={sRbac rb} eval={ev} spec={spec}")
-    | _, _, _, _, _, _, _ => ((), "bad-op")
+    | _, _, _, _, _, _, _, _ => ((), "bad-op")
   | ["pat", s] =>
     match pSrc s with
     | some s => ((), s!"p={encB (idPattern s)} x={encB (xfccPattern s)}")
